@@ -143,7 +143,7 @@ theorem SeqR_local (F : Flags) (o : Obs) (s : SeqSt) (x : Act) (ev : Ev) (y : Ac
   all_goals (try cases h)
   all_goals (try (first
     | (refine ⟨s, ?_, SeqR_same s x _ rfl ?_ ?_ ?_ ?_ hR'⟩ <;>
-        simp [seqMon, openOf, openND, preBodyP, Act.stop, *]; done)))
+        simp [seqMon, openOf, openND, preBodyP, Act.stop, Act.stopDeps, *]; done)))
   -- guardsPassed
   · exact ⟨s, rfl, SeqR_next s x _ 0 hcur (by intro j hj; rw [hpre] at hj; cases hj)⟩
   -- cmdStart (body)
